@@ -9,24 +9,44 @@
 EXTENDS MidiBase
 
 Inf == -1                                       \* Duration::MAX
+\* @type: (Int, Int, Int) => Bool;
 Expired(at, now, to) == to # Inf /\ now - at >= to    \* !(elapsed < timeout)
 
 (******************************* state shapes ******************************)
-Wnc(fb, reg, ismsb)          == [ph |-> "WNC", fb |-> fb, reg |-> reg, ismsb |-> ismsb]
-Wfv(nm, nl, reg)             == [ph |-> "WFV", nm |-> nm, nl |-> nl, reg |-> reg]
-Vp(nm, nl, reg, at, b, ismsb) == [ph |-> "VP", nm |-> nm, nl |-> nl, reg |-> reg,
-                                  at |-> at, b |-> b, ismsb |-> ismsb]
-Fvc(nm, nl, reg, vm, vl)     == [ph |-> "FVC", nm |-> nm, nl |-> nl, reg |-> reg,
-                                  vm |-> vm, vl |-> vl]
+(* One record shape for all four phases (unused fields hold None / FALSE / 0) so that the   *)
+(* specification is typable for Apalache; the constructors below keep the phases readable.  *)
+\* @typeAlias: pollSt = { ph: Str, fb: Int, reg: Bool, ismsb: Bool, nm: Int, nl: Int, at: Int, b: Int, vm: Int, vl: Int };
+\* @typeAlias: pollRes = { st: $pollSt, out: Seq(Seq(Int)) };
+\* @typeAlias: pollGhost = { nm: Int, nl: Int, kind: Bool, c6: Int, c6t: Int, c38: Int, c38t: Int, rep: Bool, last: Str, late38: Bool, owe: Bool };
+PollAliases == TRUE
+
+\* @type: $pollSt;
+Blank == [ph |-> "WNC", fb |-> None, reg |-> FALSE, ismsb |-> FALSE, nm |-> None, nl |-> None,
+          at |-> 0, b |-> None, vm |-> None, vl |-> None]
+\* @type: (Int, Bool, Bool) => $pollSt;
+Wnc(fb, reg, ismsb)          == [Blank EXCEPT !.ph = "WNC", !.fb = fb, !.reg = reg, !.ismsb = ismsb]
+\* @type: (Int, Int, Bool) => $pollSt;
+Wfv(nm, nl, reg)             == [Blank EXCEPT !.ph = "WFV", !.nm = nm, !.nl = nl, !.reg = reg]
+\* @type: (Int, Int, Bool, Int, Int, Bool) => $pollSt;
+Vp(nm, nl, reg, at, b, ismsb) == [Blank EXCEPT !.ph = "VP", !.nm = nm, !.nl = nl, !.reg = reg,
+                                              !.at = at, !.b = b, !.ismsb = ismsb]
+\* @type: (Int, Int, Bool, Int, Int) => $pollSt;
+Fvc(nm, nl, reg, vm, vl)     == [Blank EXCEPT !.ph = "FVC", !.nm = nm, !.nl = nl, !.reg = reg,
+                                              !.vm = vm, !.vl = vl]
+\* @type: $pollSt;
 PollInit == Wnc(None, FALSE, FALSE)
 
+\* @type: ($pollSt) => Int;
 PNum(st) == Join(st.nm, st.nl)
+\* @type: ($pollSt) => $pollRes;
 Keep(st) == [st |-> st, out |-> <<>>]
 
 \* ValuePendingState::resolve
+\* @type: ($pollSt, Int) => Seq(Seq(Int));
 Resolve(st, c) == IF st.ismsb THEN << Pn7(c, PNum(st), st.b, st.reg, DtEntry) >> ELSE <<>>
 
 (***************************** process_number_byte *************************)
+\* @type: ($pollSt, Int, Bool, Bool, Int) => $pollRes;
 PollProcessNumberByte(st, byte, reg, ismsb, c) ==
     CASE st.ph = "WNC" ->
            IF st.fb # None
@@ -43,6 +63,7 @@ PollProcessNumberByte(st, byte, reg, ismsb, c) ==
             out |-> Resolve(st, c)]
 
 (****************************** process_value_lsb **************************)
+\* @type: ($pollSt, Int, Int, Int) => $pollRes;
 PollProcessValueLsb(st, c, v, now) ==
     CASE st.ph = "WNC" -> Keep(st)
       [] st.ph = "WFV" -> [st |-> Vp(st.nm, st.nl, st.reg, now, v, FALSE), out |-> <<>>]
@@ -56,6 +77,7 @@ PollProcessValueLsb(st, c, v, now) ==
             out |-> << Pn14(c, PNum(st), Join(st.vm, v), st.reg) >>]      \* fine adjustment
 
 (****************************** process_value_msb **************************)
+\* @type: ($pollSt, Int, Int, Int) => $pollRes;
 PollProcessValueMsb(st, c, v, now) ==
     CASE st.ph = "WNC" -> Keep(st)
       [] st.ph = "WFV" -> [st |-> Vp(st.nm, st.nl, st.reg, now, v, TRUE), out |-> <<>>]
@@ -68,6 +90,7 @@ PollProcessValueMsb(st, c, v, now) ==
       [] st.ph = "FVC" -> [st |-> Vp(st.nm, st.nl, st.reg, now, v, TRUE), out |-> <<>>]
 
 (**************************** process_value_inc_dec ************************)
+\* @type: ($pollSt, Int, Int, Int) => $pollRes;
 PollProcessValueIncDec(st, c, dt, v) ==
     CASE st.ph = "WNC" -> Keep(st)
       [] st.ph = "WFV" -> [st |-> st, out |-> << Pn7(c, PNum(st), v, st.reg, dt) >>]
@@ -81,6 +104,7 @@ PollProcessValueIncDec(st, c, dt, v) ==
                            out |-> << Pn7(c, PNum(st), v, st.reg, dt) >>]
 
 (************************************ feed *********************************)
+\* @type: ($pollSt, Seq(Int), Int) => $pollRes;
 PollFeed(st, m, now) ==
     IF ~IsCC(m) THEN Keep(st)
     ELSE LET n == CcNum(m)  v == CcVal(m)  c == MsgChannel(m) IN
@@ -95,11 +119,13 @@ PollFeed(st, m, now) ==
            [] OTHER   -> Keep(st)
 
 (************************************ poll *********************************)
+\* @type: ($pollSt, Int, Int, Int) => $pollRes;
 PollPoll(st, c, now, to) ==
     IF st.ph # "VP" THEN Keep(st)
     ELSE IF ~Expired(st.at, now, to) THEN Keep(st)
     ELSE [st |-> Wfv(st.nm, st.nl, st.reg), out |-> Resolve(st, c)]
 
+\* @type: ($pollSt) => $pollSt;
 PollReset(st) == PollInit
 
 (***************************************************************************)
@@ -107,21 +133,31 @@ PollReset(st) == PollInit
 (* Appendix A), NOT from the code: it observes only inputs, the time of     *)
 (* each call and the reports the call produced.                             *)
 (***************************************************************************)
+\* @type: $pollGhost;
 PgInit == [nm |-> None, nl |-> None, kind |-> FALSE,
            c6 |-> None, c6t |-> 0, c38 |-> None, c38t |-> 0,
            rep |-> FALSE, last |-> "none", late38 |-> FALSE, owe |-> FALSE]
 
+\* @type: ($pollGhost) => Bool;
 PgComplete(g) == g.nm # None /\ g.nl # None
+\* @type: ($pollGhost) => Int;
 PgNumber(g)   == 128 * g.nm + g.nl
+\* @type: (Int, Int, Int) => Bool;
 Late(t0, now, to) == to # Inf /\ now - t0 >= to
 
+\* @type: (Seq(Int)) => Bool;
 IsEntry7(r)  == r[5] = 0 /\ r[6] = DtEntry
+\* @type: (Seq(Int)) => Bool;
 IsEntry14(r) == r[5] = 1
+\* @type: (Seq(Int)) => Bool;
 IsIncDec(r)  == r[5] = 0 /\ r[6] \in {DtInc, DtDec}
-Has14(o)     == \E i \in 1..Len(o) : IsEntry14(o[i])
-HasEntry(o)  == \E i \in 1..Len(o) : IsEntry7(o[i]) \/ IsEntry14(o[i])
+\* @type: (Seq(Seq(Int))) => Bool;
+Has14(o)     == \E i \in DOMAIN o : IsEntry14(o[i])
+\* @type: (Seq(Seq(Int))) => Bool;
+HasEntry(o)  == \E i \in DOMAIN o : IsEntry7(o[i]) \/ IsEntry14(o[i])
 
 \* clauses on every single report r of a call on channel c (a = the fed message or <<>> for poll)
+\* @type: ($pollGhost, Int, Seq(Int), Seq(Int)) => Set(Str);
 ReportClauses(g, c, a, r) ==
     (IF PgComplete(g) /\ r[1] = c /\ r[2] = PgNumber(g) /\ r[4] = B2I(g.kind)
         THEN {} ELSE {"C14a"})
@@ -142,14 +178,15 @@ ReportClauses(g, c, a, r) ==
     \cup
     (IF r[5] \in {0, 1} /\ r[6] \in {0, 1, 2} /\ (r[5] = 0 => r[3] <= 127) THEN {} ELSE {"C14d"})
 
+\* @type: ($pollGhost, Seq(Seq(Int))) => Bool;
 CarriesC6(g, o) ==
-    \E i \in 1..Len(o) : \/ IsEntry7(o[i]) /\ o[i][3] = g.c6
-                         \/ IsEntry14(o[i]) /\ o[i][3] \div 128 = g.c6
+    \E i \in DOMAIN o : (IsEntry7(o[i]) /\ o[i][3] = g.c6) \/ (IsEntry14(o[i]) /\ o[i][3] \div 128 = g.c6)
 
 \* set of violated clause names for a feed of message m (on its channel) reporting o
+\* @type: ($pollGhost, Seq(Int), Seq(Seq(Int)), Bool, Int, Int) => Set(Str);
 PollFeedViolations(g, m, o, gap, now, to) ==
     LET c == MsgChannel(m) IN
-    (UNION {ReportClauses(g, c, m, o[i]) : i \in 1..Len(o)})
+    (UNION {ReportClauses(g, c, m, o[i]) : i \in DOMAIN o})
     \cup
     (IF (g.owe /\ IsPnContrib(m)) => CarriesC6(g, o) THEN {} ELSE {"C14e"})
     \cup
@@ -163,8 +200,9 @@ PollFeedViolations(g, m, o, gap, now, to) ==
         THEN {} ELSE {"C13l"})
 
 \* set of violated clause names for a poll on channel c reporting o
+\* @type: ($pollGhost, Int, Seq(Seq(Int)), Int, Int) => Set(Str);
 PollPollViolations(g, c, o, now, to) ==
-    (UNION {ReportClauses(g, c, <<>>, o[i]) : i \in 1..Len(o)})
+    (UNION {ReportClauses(g, c, <<>>, o[i]) : i \in DOMAIN o})
     \cup
     (IF (g.owe /\ Late(g.c6t, now, to)) => CarriesC6(g, o) THEN {} ELSE {"C14e"})
     \cup
@@ -172,6 +210,7 @@ PollPollViolations(g, c, o, now, to) ==
              THEN << Pn7(c, PgNumber(g), g.c6, g.kind, DtEntry) >> ELSE <<>>)
         THEN {} ELSE {"C13p"})
 
+\* @type: ($pollGhost, Seq(Int), Seq(Seq(Int)), Int) => $pollGhost;
 PgFeed(g, m, o, now) ==
     IF ~IsPnContrib(m) THEN g
     ELSE LET n == CcNum(m)  v == CcVal(m)
@@ -188,23 +227,19 @@ PgFeed(g, m, o, now) ==
            [] OTHER  -> [g EXCEPT !.last = "incdec", !.owe = FALSE, !.late38 = FALSE,
                                   !.rep = rep2]
 
+\* @type: ($pollGhost, Seq(Seq(Int)), Int, Int) => $pollGhost;
 PgPoll(g, o, now, to) ==
     [g EXCEPT !.rep    = g.rep \/ HasEntry(o),
               !.owe    = g.owe /\ ~Late(g.c6t, now, to),
               !.late38 = g.late38 \/ (g.last = "cc38" /\ Late(g.c38t, now, to))]
 
+\* @type: ($pollGhost) => $pollGhost;
 PgReset(g) == PgInit
 
 \* "early" poll in the sense of the property: nothing that is pending has reached its timeout
+\* @type: ($pollGhost, Int, Int) => Bool;
 PollIsEarly(g, now, to) ==
     /\ (g.owe => ~Late(g.c6t, now, to))
     /\ (g.last = "cc38" => ~Late(g.c38t, now, to))
 
-(* run a sequence of messages, then wait `wait` ms and poll: used for C12   *)
-RECURSIVE PollRun(_, _, _)
-PollRun(st, ms, now) ==
-    IF ms = <<>> THEN [st |-> st, outs |-> <<>>]
-    ELSE LET r == PollFeed(st, Head(ms), now)
-             rest == PollRun(r.st, Tail(ms), now)
-         IN [st |-> rest.st, outs |-> <<r.out>> \o rest.outs]
 ===============================================================================
